@@ -543,6 +543,7 @@ fn fresh_symbols() -> &'static std::collections::HashSet<String> {
 fn sym_eq_case(rng: &mut Rng) -> Option<String> {
     let mut vm = Vm::new();
     // the pair of productions
+    let mut force_lit = false;
     let (r1, r2) = match rng.below(10) {
         0 | 1 | 2 => {
             // one name, two routes
@@ -588,6 +589,20 @@ fn sym_eq_case(rng: &mut Rng) -> Option<String> {
                 (b, a)
             }
         }
+        8 => {
+            // one name, string->symbol twice, the raw text interned as a spelling in between (`force_lit`): names
+            // whose spelling differs from the text (not identifier-initial, or a backslash inside) and ordinary ones
+            force_lit = true;
+            let s = match rng.below(4) {
+                0 => format!("{}{}", rng.pick(&["1", "+", "-", ".", "9", "#", "1+", "-x"]), gen_name(rng)),
+                1 => format!("{}\\{}", gen_name(rng), gen_name(rng)),
+                2 => rng.pick(&["1+", "-x", "+", "-", "...", "1", "x\\y", ".a"]).to_string(),
+                _ => gen_name(rng),
+            };
+            let a = if rng.chance(1, 2) { Route::S2S(s.clone()) } else { Route::EvalS2S(s.clone()) };
+            let b = if rng.chance(1, 2) { Route::S2S(s.clone()) } else { Route::EvalS2S(s) };
+            (a, b)
+        }
         _ => {
             let y1 = gen_reader_symbol(rng);
             let y2 = gen_reader_symbol(rng);
@@ -596,7 +611,7 @@ fn sym_eq_case(rng: &mut Rng) -> Option<String> {
     };
     // schedule
     let every: Option<usize> = *rng.pick(&[None, None, None, Some(1), Some(2), Some(3), Some(5), Some(7), Some(16), Some(50)]);
-    let shape = rng.below(4); // 0: across evaluations, 1: across with forced collections and garbage, 2: within one evaluation, 3: drop and re-intern
+    let shape = if force_lit { rng.below(2) } else { rng.below(4) }; // 0: across evaluations, 1: across with forced collections and garbage, 2: within one evaluation, 3: drop and re-intern
     let e1 = route_expr(&mut vm, &r1)?;
     let e2 = route_expr(&mut vm, &r2)?;
     vm.verif_set_gc_every(every);
@@ -606,15 +621,29 @@ fn sym_eq_case(rng: &mut Rng) -> Option<String> {
     let run = |vm: &mut Vm, f: &Cell| -> bool { matches!(eval_cell(vm, f), Ok(Ok(_))) };
     let (na, nb): (&str, &str);
     let mut extra_oracle: Option<String> = None;
+    // between the two productions, a symbol whose SPELLING is the raw name of the first string->symbol route is
+    // interned by another evaluation (as reading the literal would): string->symbol must not pick it up
+    let interposed: Option<Cell> = match (&r1, shape) {
+        (Route::S2S(n) | Route::EvalS2S(n), 0 | 1) if !n.is_empty() && (force_lit || rng.chance(1, 2)) => {
+            Some(def("zq-i", quote(sym(n))))
+        }
+        _ => None,
+    };
     match shape {
         0 => {
             ok &= run(&mut vm, &def("zq-a", e1));
+            if let Some(f) = &interposed {
+                run(&mut vm, f);
+            }
             ok &= run(&mut vm, &def("zq-b", e2));
             na = "zq-a";
             nb = "zq-b";
         }
         1 => {
             ok &= run(&mut vm, &def("zq-a", e1));
+            if let Some(f) = &interposed {
+                run(&mut vm, f);
+            }
             vm.verif_force_gc();
             ok &= run(&mut vm, &garbage_form(rng));
             vm.verif_force_gc();
@@ -711,7 +740,11 @@ fn sym_eq_case(rng: &mut Rng) -> Option<String> {
             }
         }
     };
-    let shape_name = ["across", "across-forced", "within", "drop"][shape as usize];
+    let shape_name = if interposed.is_some() {
+        ["across-lit", "across-forced-lit", "within", "drop"][shape as usize]
+    } else {
+        ["across", "across-forced", "within", "drop"][shape as usize]
+    };
     let mut line = format!(
         "c18-eq {} {} {} {}+{}/{}/every-{}/gc{}\tok {} {}\tspec-c18-eq {} {}",
         mode,
@@ -967,8 +1000,15 @@ fn main() {
                 let d = match parse::parse_text(line) {
                     Ok((d, None)) => d,
                     _ => {
-                        eprintln!("corpus line does not read as one datum: {}", line);
-                        std::process::exit(3);
+                        // every corpus line is a datum in its WRITTEN form: a line the reader no longer accepts
+                        // is a failing input of the property, not a harness failure
+                        writeln!(
+                            out,
+                            "#oracle corpus-line-reads {}\tunreadable\tone-datum",
+                            line.replace('\t', " ")
+                        )
+                        .unwrap();
+                        continue;
                     }
                 };
                 let e = enc_datum(&d);
